@@ -407,6 +407,9 @@ func run(c Case) pbt.Verdict {
 			for ki := w; ki < len(keys); ki += workers {
 				mine = append(mine, ki)
 			}
+			var held []*hrw.RendezvousHashNode // the list returned by the previous lookup on a, still referenced
+			var heldLabels []string
+			heldKey := -1
 			base := make(map[int][]string, len(mine)) // key index -> ordered ids; absent = key skipped (ambiguous reference)
 			type rs struct {
 				id string
@@ -466,6 +469,12 @@ func run(c Case) pbt.Verdict {
 				la := a.GetOrderedNodes(key, n)
 				st.lists++
 				got := labelsOf(la)
+				// A list handed out earlier is the caller's: later lookups must not rewrite it.
+				if held != nil && !equal(labelsOf(held), heldLabels) {
+					fail(heldKey, "the ordered list returned for this key changed when key %q was looked up afterwards: was %v, now %v", key, heldLabels, labelsOf(held))
+					return
+				}
+				held, heldLabels, heldKey = la, got, ki
 				if len(got) != n {
 					fail(ki, "ordered list has %d entries for %d nodes: %v", len(got), n, got)
 					return
@@ -540,6 +549,11 @@ func run(c Case) pbt.Verdict {
 				}
 				got := labelsOf(a.GetOrderedNodes(keys[ki], n))
 				st.lists++
+				if held != nil && !equal(labelsOf(held), heldLabels) {
+					fail(heldKey, "the ordered list returned for this key changed when node %s was removed and key %q looked up afterwards: was %v, now %v", ids[c.Remove], keys[ki], heldLabels, labelsOf(held))
+					return
+				}
+				held = nil
 				if want := without(bl, ids[c.Remove]); !equal(got, want) {
 					fail(ki, "removing node %s changed more than its own entry: before %v, after %v", ids[c.Remove], bl, got)
 					return
@@ -760,7 +774,7 @@ func TestProp(t *testing.T) {
 		ID: "C22",
 		Rule: "part order: generated node set (1-16 distinct labels, weights 1-1000 or all equal), hash/score pair in {murmur3,sha256}x{UInt64ToFloat64,BigIntToFloat64} (murmur3+UInt64 half of the cases), " +
 			"a second insertion order, a node to remove, a new node to add, 8-48 long hex keys (1-512 key bytes, half of them beyond 32 bytes, lengths around 64/128/256 over-represented; one case in three has labels of up to ~230 bytes sharing a long prefix), truncation sizes; for ALL 65536 four-hex-digit keys + the 256 two-digit upper-case keys + the long keys: " +
-			"GetOrderedNodes equals the node set ordered by the harness's own reference score (keys where two reference scores are within 1e-12 relative, 1e-9 for BigIntToFloat64, are skipped and counted), exported Score values strictly descend and match the reference, " +
+			"GetOrderedNodes equals the node set ordered by the harness's own reference score (keys where two reference scores are within 1e-12 relative, 1e-9 for BigIntToFloat64, are skipped and counted), exported Score values strictly descend and match the reference, a list returned earlier is not rewritten by a later lookup or removal, " +
 			"a second hash holding the nodes in the other insertion order plus the new node returns the same list with only the new node inserted, RemoveNode of the drawn node only deletes it; on a subset (every 64th shard, the two-digit keys, the long keys) " +
 			"truncation to n and EVERY single-node RemoveNode and re-AddNode are checked; evaluations = ordered lists judged; non-trivial = at least 2 nodes; distinct = distinct (hash pair, node set). " +
 			"part scorefunc: batches of 64-bit values concentrated on k<<53; UInt64ToFloat64 with a murmur3 re-hasher that already absorbed 0-24 bytes must equal the documented value and lie in (0,1); evaluations = values",
